@@ -64,7 +64,7 @@ type rop struct {
 }
 
 type outcome struct {
-	Kind   string `json:"kind"` // status | statuscancel | statusexpired (response in, then the context ends) | err | wrapcancel | ctxcancel | deadline (error only) | expired (context past its deadline)
+	Kind   string `json:"kind"` // status | statuscancel | statusexpired (response in, then the context ends) | wrapnil (the wrapper answers (nil, err)) | wrapboth (the wrapper hands back the response and an unrecorded error) | err | wrapcancel | ctxcancel | deadline (error only) | expired (context past its deadline)
 	Status int    `json:"status,omitempty"`
 	// cookies the response sets (Path=/): stored in the client's jar, sent with later attempts
 	SetCookie [][2]string `json:"setcookie,omitempty"`
@@ -108,6 +108,20 @@ type program struct {
 	Shape     shape       `json:"shape"`
 	After     []afterSpec `json:"after"`
 	Script    []outcome   `json:"script"`
+	// a client-level WrapRoundTrip wrapper is installed (it passes the inner result on, except
+	// for the outcome kinds wrapnil / wrapboth)
+	Wrap bool `json:"wrap,omitempty"`
+	// how the request is executed: send (Send-based verbs) | do (Do(ctx)) | doplain (SetContext + Do())
+	Via string `json:"via,omitempty"`
+	// the SAME Request object executed again afterwards, each time with a script of its own
+	Reexec []reexecSpec `json:"reexec,omitempty"`
+	// RetryAttempt the request object carries into this execution (left by the previous one)
+	Stale int `json:"stale_attempt,omitempty"`
+}
+
+type reexecSpec struct {
+	Via    string    `json:"via"`
+	Script []outcome `json:"script"`
 }
 
 // ---------- observation ----------
@@ -151,7 +165,7 @@ func errCode(err error) int {
 		return 0
 	}
 	s := err.Error()
-	for _, c := range []int{1, 2, 4, 5} {
+	for _, c := range []int{1, 2, 4, 5, 6, 7} {
 		if strings.Contains(s, fmt.Sprintf("E%d!", c)) {
 			return c
 		}
@@ -289,6 +303,11 @@ func (rs *runState) roundTrip(q *http.Request) (*http.Response, error) {
 			rs.ctx.end(context.DeadlineExceeded)
 		}
 		return statusResponse(oc, q), nil
+	case "wrapnil", "wrapboth": // the transport answers; the client-level wrapper changes the result
+		if oc.Status == 0 {
+			oc.Status = 200
+		}
+		return statusResponse(oc, q), nil
 	case "err":
 		return nil, errors.New("E1! transport failure")
 	case "wrapcancel":
@@ -317,6 +336,22 @@ func newClient(p *program) *req.Client {
 			return rs.roundTrip(q)
 		}
 	})
+	if p.Wrap {
+		c.WrapRoundTripFunc(func(rt req.RoundTripper) req.RoundTripFunc {
+			return func(rq *req.Request) (*req.Response, error) {
+				resp, err := rt.RoundTrip(rq)
+				if rs := stateOfCtx(rq.Context()); rs != nil && rs.attempt >= 0 && rs.attempt < len(rs.p.Script) {
+					switch rs.p.Script[rs.attempt].Kind {
+					case "wrapnil":
+						return nil, errors.New("E6! wrapper gives no response")
+					case "wrapboth":
+						return resp, errors.New("E7! wrapper error next to the response")
+					}
+				}
+				return resp, err
+			}
+		})
+	}
 	sh := &p.Shape
 	if len(sh.CHeaders) > 0 {
 		c.Headers = toHeader(sh.CHeaders)
@@ -533,7 +568,18 @@ func (rs *runState) send() {
 				rs.o.PanicStack = string(debug.Stack())
 			}
 		}()
-		resp, err = rs.r.Send(sh.Method, u)
+		switch rs.p.Via {
+		case "do":
+			rs.r.Method, rs.r.RawURL = sh.Method, u
+			resp = rs.r.Do(rs.ctx)
+			err = resp.Err
+		case "doplain":
+			rs.r.Method, rs.r.RawURL = sh.Method, u
+			resp = rs.r.SetContext(rs.ctx).Do()
+			err = resp.Err
+		default:
+			resp, err = rs.r.SetContext(rs.ctx).Send(sh.Method, u)
+		}
 	}()
 	select {
 	case <-done:
@@ -563,6 +609,32 @@ func execute(p *program) observation {
 	rs := buildRequest(c, p)
 	rs.send()
 	return rs.o
+}
+
+// again: the same Request object executed once more as program q (same settings, another
+// script / entry point), with a fresh scripted context and a fresh observation.
+func (rs *runState) again(q *program, jar0 [][2]string) observation {
+	rs.p = q
+	rs.o = observation{Jar0: jar0}
+	rs.ctx = newScriptCtx()
+	rs.ctx.rs = rs
+	rs.attempt = -1
+	rs.send()
+	return rs.o
+}
+
+// executions: the program's first execution and its re-executions as programs of their own
+// (what the oracle and the Coq model judge: every execution starts afresh).
+func (p *program) executions() []*program {
+	first := *p
+	first.Reexec = nil
+	out := []*program{&first}
+	for _, re := range p.Reexec {
+		q := first
+		q.Via, q.Script = re.Via, re.Script
+		out = append(out, &q)
+	}
+	return out
 }
 
 // ---------- oracle: the property, decided on the observation without the Coq model ----------
@@ -607,6 +679,10 @@ func outcomeView(oc outcome) (st int, ec int, cancelled bool) {
 		return oc.Status, 0, false
 	case "statuscancel", "statusexpired":
 		return oc.Status, 0, true
+	case "wrapnil":
+		return -1, 6, false
+	case "wrapboth":
+		return oc.Status, 7, false
 	case "err":
 		return -1, 1, false
 	case "wrapcancel":
